@@ -9,13 +9,18 @@
 EXTENDS Integers, Sequences, FiniteSets, TLC, Json
 (* persistence of clients and ACLs (C16 last clause, C14) *)
 CONSTANTS Clients, MaxOps
-VARIABLES reg,    \* registered clients
+VARIABLES reg,    \* registered clients: [client -> key version] (registering a known client again rotates its key)
           acls,   \* [client -> ACL set id] of clients that have an ACL
           phist
 pvars == <<reg, acls, phist>>
 PLog(r) == phist' = Append(phist, r)
-Register(c) == reg' = reg \cup {c} /\ UNCHANGED acls /\ PLog([a |-> "register", c |-> c])
-Unregister(c) == c \in reg /\ reg' = reg \ {c} /\ acls' = [x \in DOMAIN acls \ {c} |-> acls[x]]
+\* registering a known client again rotates its key: versions count up, so that a state with version 2 is only
+\* reachable through a rotation (the view hides the history)
+Register(c) == LET kv == IF c \in DOMAIN reg THEN reg[c] + 1 ELSE 1
+               IN /\ kv <= 3
+                  /\ reg' = [x \in DOMAIN reg \cup {c} |-> IF x = c THEN kv ELSE reg[x]] /\ UNCHANGED acls
+                  /\ PLog([a |-> "register", c |-> c, kv |-> kv])
+Unregister(c) == c \in DOMAIN reg /\ reg' = [x \in DOMAIN reg \ {c} |-> reg[x]] /\ acls' = [x \in DOMAIN acls \ {c} |-> acls[x]]
                  /\ PLog([a |-> "unregister", c |-> c])
 SetAcl(c, k) == acls' = [x \in DOMAIN acls \cup {c} |-> IF x = c THEN k ELSE acls[x]] /\ UNCHANGED reg
                 /\ PLog([a |-> "setacl", c |-> c, k |-> k])
@@ -23,7 +28,7 @@ DelAcl(c) == c \in DOMAIN acls /\ acls' = [x \in DOMAIN acls \ {c} |-> acls[x]] 
              /\ PLog([a |-> "delacl", c |-> c])
 PRestart == phist # <<>> /\ (IF phist = <<>> THEN FALSE ELSE phist[Len(phist)].a # "restart")
             /\ UNCHANGED <<reg, acls>> /\ PLog([a |-> "restart"])
-PInit == reg = {} /\ acls = <<>> /\ phist = <<>>
+PInit == reg = <<>> /\ acls = <<>> /\ phist = <<>>
 PNext == /\ Len(phist) < MaxOps
          /\ \/ \E c \in Clients : Register(c) \/ Unregister(c) \/ DelAcl(c)
             \/ \E c \in Clients, k \in 1..2 : SetAcl(c, k)
